@@ -5,7 +5,10 @@ Open Scope N_scope.
 
 Lemma C04_facts_ok :
   process_dispatch_shape = Known true /\ update_merge_keeps_old = Known true /\ snapshot_is_index_save = Known true /\
-  load_accepts_empty = Known true /\ load_resets_state = Known true.
+  load_accepts_empty = Known true /\ load_resets_state = Known true /\
+  (* the merged metadata is validated before anything is stored, on the single and on the batch path: what a replica
+     holds stays within what a snapshot can carry, so restoring at any cut reproduces it (C08's bounds, C12's theorem) *)
+  update_checks_merged_metadata = Known true.
 Proof. repeat split; reflexivity. Qed.
 
 (* any two replicas — whatever their graphs, levels and iteration orders, as long as their index meets the store
